@@ -54,6 +54,14 @@ import (
 	"testing"
 )
 
+// refSeed is the seed every random choice derives from (env VERIF_SEED, default 1).
+func refSeed() int64 {
+	if s, err := strconv.ParseInt(os.Getenv("VERIF_SEED"), 10, 64); err == nil {
+		return s
+	}
+	return 1
+}
+
 // refReporter caps the number of printed failures (the total is still reported).
 type refReporter struct {
 	t   *testing.T
